@@ -61,7 +61,9 @@ func (w *UDPAssociateWrapper) ReadFrom(p []byte) (n int, addr net.Addr, err erro
 		return
 	}
 
-	n, err = r.Read(p)
+	// bytes.Reader reports io.EOF for an empty payload, which is a valid
+	// (empty) datagram and not an error.
+	n = copy(p, b[len(b)-r.Len():])
 	// Caller may expect the returned address to be *net.UDPAddr.
 	addr = &net.UDPAddr{
 		IP:   destination.IP,
